@@ -371,7 +371,8 @@ func (cs *ContractSet) loadFile(file string, pkgPrefix string) error {
 						cl.At = "@line"
 						cur.LineHooks = append(cur.LineHooks, cl)
 					} else {
-						sm := regexp.MustCompile(`^\s*(\w+)\s*=\s*(.*)$`).FindStringSubmatch(lm[3])
+						// set name = expr (ghost variable) | set base.ghostfield = expr (ghost field of an object)
+						sm := regexp.MustCompile(`^\s*([\w.\[\]()*]+?)\s*=([^=].*)$`).FindStringSubmatch(lm[3])
 						if sm == nil {
 							return fail("at line \"text\" set name = expr")
 						}
